@@ -2,15 +2,20 @@ package packet
 
 import (
 	"crypto/sha256"
-	"encoding/json"
 	"encoding/binary"
+	"encoding/json"
 	"fmt"
 	"sort"
+	"strconv"
+	"strings"
 	"testing"
 	"time"
 
+	storetypes "github.com/cosmos/cosmos-sdk/store/v2/types"
 	sdk "github.com/cosmos/cosmos-sdk/types"
+	authzkeeper "github.com/cosmos/cosmos-sdk/x/authz/keeper"
 
+	transfertypes "github.com/cosmos/ibc-go/v11/modules/apps/transfer/types"
 	clienttypes "github.com/cosmos/ibc-go/v11/modules/core/02-client/types"
 	channeltypes "github.com/cosmos/ibc-go/v11/modules/core/04-channel/types"
 	channeltypesv2 "github.com/cosmos/ibc-go/v11/modules/core/04-channel/v2/types"
@@ -56,6 +61,7 @@ type Schedule struct {
 	ID   string            `json:"id"`
 	Kind string            `json:"kind"`
 	TP   int64             `json:"tp"`
+	Opt  string            `json:"opt,omitempty"` // "sameids": V2 path whose two clients have the same identifier
 	Acts []json.RawMessage `json:"acts"`
 }
 
@@ -89,7 +95,22 @@ type ChainSt struct {
 	Frozen bool    `json:"frozen"`
 	Status string  `json:"status"`
 	Log    []LogEv `json:"log"`
+	App    []AppW  `json:"app"`
+	Coins  int64   `json:"coins"`
 	Dig    string  `json:"dig"`
+	Meta   Meta    `json:"meta"`
+}
+
+// Meta is protocol-relevant module state outside the ICS-24 packet paths (C44).
+type Meta struct {
+	Creator      string `json:"creator"`
+	Relayers     string `json:"relayers"`
+	Counterparty string `json:"counterparty"`
+	Alias        string `json:"alias"`
+	ConnState    string `json:"conn"`
+	NextIDs      string `json:"nextids"`
+	ConsMeta     string `json:"consmeta"` // digest of the light client's store (consensus states + metadata)
+	Reexport     string `json:"reexport"` // "same" | "differs" | "" (only set by ExportImport steps)
 }
 
 type State struct {
@@ -106,6 +127,14 @@ type TraceLine struct {
 	Res  string `json:"res"`
 	Err  string `json:"err,omitempty"` // diagnostic only, never asserted
 	St   State  `json:"st"`
+	Det  *Det   `json:"det,omitempty"` // C45: byte-level observations compared between two processes
+}
+
+// Det holds observations below the abstraction: application hashes, exported genesis, raw query order.
+type Det struct {
+	AppHash map[string]string `json:"apphash"`
+	Genesis map[string]string `json:"genesis"`
+	Queries map[string]string `json:"queries"`
 }
 
 const tickDur = 500 * time.Millisecond
@@ -131,6 +160,7 @@ type World struct {
 	ackDict    map[string][]string // hash -> abstract ack
 	logs       map[string][]LogEv
 	pending    map[string][]LogEv
+	reexport   map[string]string
 }
 
 func cp(c string) string {
@@ -140,13 +170,14 @@ func cp(c string) string {
 	return "A"
 }
 
-func NewWorld(t *testing.T, kind string, tp int64) *World {
+func NewWorld(t *testing.T, kind string, tp int64, opt string) *World {
 	w := &World{t: t, kind: kind, tp: tp,
 		ch: map[string]*ibctesting.TestChain{}, ep: map[string]*ibctesting.Endpoint{},
 		H0: map[string]int64{}, bt: map[string]map[int64]int64{"A": {}, "B": {}},
 		headers:    map[string]map[int64]*ibctm.Header{"A": {}, "B": {}},
 		commitDict: map[string]Pkt{}, ackDict: map[string][]string{},
 		logs: map[string][]LogEv{"A": {}, "B": {}}, pending: map[string][]LogEv{"A": {}, "B": {}},
+		reexport: map[string]string{},
 	}
 	// keep set-up inside a few milliseconds of chain time so that nothing expires before the run starts
 	ibctesting.TimeIncrement = time.Millisecond
@@ -170,6 +201,14 @@ func NewWorld(t *testing.T, kind string, tp int64) *World {
 		w.path.SetChannelOrdered()
 		w.path.Setup()
 	case "V2":
+		if opt != "sameids" {
+			// give the two light clients different identifiers (chain-local ids need not differ, but a pair
+			// with equal ids is a separate, recorded case: KF-C44-2)
+			dummy := ibctesting.NewPath(w.ch["A"], w.ch["B"])
+			if err := dummy.EndpointB.CreateClient(); err != nil {
+				t.Fatal(err)
+			}
+		}
 		w.path.SetupV2()
 	default:
 		t.Fatalf("unknown kind %s", kind)
@@ -429,16 +468,94 @@ func (w *World) note(ctx sdk.Context, ev string, p Pkt, a []string) {
 }
 
 // absV1 maps a real v1 packet seen by an application callback back to the abstract packet.
-func (w *World) absV1(p channeltypes.Packet, src string) Pkt {
-	d := "other"
-	switch string(p.Data) {
+// absData maps packet data / payload value bytes back to the abstract behaviour name.
+func absData(bz []byte) string {
+	switch string(bz) {
 	case string(ibcmock.MockPacketData):
-		d = "ok"
+		return "ok"
 	case string(ibcmock.MockFailPacketData):
-		d = "fail"
+		return "fail"
 	case string(ibcmock.MockAsyncPacketData):
-		d = "async"
+		return "async"
 	}
+	if s := string(bz); strings.HasPrefix(s, "verif-other-") {
+		return strings.TrimPrefix(s, "verif-other-")
+	}
+	return "other"
+}
+
+func outcomeOf(d string) string {
+	switch d {
+	case "ok", "ok1", "ok2":
+		return "ok"
+	case "async", "async1", "async2":
+		return "async"
+	}
+	return "fail"
+}
+
+func writesOf(d string) int {
+	switch d {
+	case "ok1", "fail1", "async1":
+		return 1
+	case "ok2", "fail2", "async2":
+		return 2
+	case "fail3":
+		return 3
+	}
+	return 0
+}
+
+const appPrefix = "verif/app/"
+
+var appAddr = sdk.AccAddress([]byte("verif-app-account---"))
+
+// appWrite performs the application's state writes for payload i of the packet with the given key: a raw store
+// write for every w and additionally a bank mint+send for even w.
+func (w *World) appWrite(ctx sdk.Context, key string, i int, d string) {
+	app := w.ch[w.chainOf(ctx)].GetSimApp()
+	store := ctx.KVStore(app.GetKey(authzkeeper.StoreKey))
+	for n := 1; n <= writesOf(d); n++ {
+		store.Set([]byte(fmt.Sprintf("%s%s#%d#%d", appPrefix, key, i, n)), []byte{1})
+		if n%2 == 0 {
+			coins := sdk.NewCoins(sdk.NewInt64Coin("verifcoin", 1))
+			if err := app.BankKeeper.MintCoins(ctx, transfertypes.ModuleName, coins); err != nil {
+				panic(err)
+			}
+			if err := app.BankKeeper.SendCoinsFromModuleToAccount(ctx, transfertypes.ModuleName, appAddr, coins); err != nil {
+				panic(err)
+			}
+		}
+	}
+}
+
+type AppW struct {
+	K string `json:"k"`
+	I int    `json:"i"`
+	W int    `json:"w"`
+}
+
+func (w *World) appState(c string) ([]AppW, int64) {
+	app := w.ch[c].GetSimApp()
+	ctx := w.ch[c].GetContext()
+	store := ctx.KVStore(app.GetKey(authzkeeper.StoreKey))
+	it := storetypes.KVStorePrefixIterator(store, []byte(appPrefix))
+	defer it.Close()
+	out := []AppW{}
+	for ; it.Valid(); it.Next() {
+		parts := strings.Split(strings.TrimPrefix(string(it.Key()), appPrefix), "#")
+		if len(parts) != 3 {
+			continue
+		}
+		i, _ := strconv.Atoi(parts[1])
+		n, _ := strconv.Atoi(parts[2])
+		out = append(out, AppW{K: parts[0], I: i, W: n})
+	}
+	return out, app.BankKeeper.GetBalance(ctx, appAddr, "verifcoin").Amount.Int64()
+}
+
+func (w *World) absV1(p channeltypes.Packet, src string) Pkt {
+	d := absData(p.Data)
 	toH := int64(0)
 	if !p.TimeoutHeight.IsZero() {
 		toH = w.rel(cp(src), p.TimeoutHeight.RevisionHeight)
@@ -454,17 +571,7 @@ func (w *World) absV1(p channeltypes.Packet, src string) Pkt {
 	return Pkt{Proto: "v1", Src: src, Seq: int64(p.Sequence), ToH: toH, ToT: toT, Data: []string{d}, Route: route}
 }
 
-func absV2Data(pl channeltypesv2.Payload) string {
-	switch string(pl.Value) {
-	case string(ibcmock.MockPacketData):
-		return "ok"
-	case string(ibcmock.MockFailPacketData):
-		return "fail"
-	case string(ibcmock.MockAsyncPacketData):
-		return "async"
-	}
-	return "other"
-}
+func absV2Data(pl channeltypesv2.Payload) string { return absData(pl.Value) }
 
 // v2 callbacks are per payload: the harness records one event per packet, at its first payload,
 // and keeps the per-payload arguments for the acknowledgement.
@@ -479,11 +586,13 @@ func (w *World) installApps() {
 		m := app.IBCMockModule.IBCApp
 		m.OnRecvPacket = func(ctx sdk.Context, _ string, p channeltypes.Packet, _ sdk.AccAddress) exported.Acknowledgement {
 			me := w.chainOf(ctx)
-			w.note(ctx, "recv", w.absV1(p, cp(me)), nil)
-			switch string(p.Data) {
-			case string(ibcmock.MockPacketData):
+			ap := w.absV1(p, cp(me))
+			w.note(ctx, "recv", ap, nil)
+			w.appWrite(ctx, ap.Key(), 1, ap.Data[0])
+			switch outcomeOf(ap.Data[0]) {
+			case "ok":
 				return ibcmock.MockAcknowledgement
-			case string(ibcmock.MockAsyncPacketData):
+			case "async":
 				return nil
 			}
 			return ibcmock.MockFailAcknowledgement
@@ -503,8 +612,9 @@ func (w *World) installApps() {
 		}
 		for _, mv2 := range []*mockv2.IBCApp{app.MockModuleV2A.IBCApp, app.MockModuleV2B.IBCApp} {
 			mv2.OnRecvPacket = func(ctx sdk.Context, srcID, dstID string, seq uint64, pl channeltypesv2.Payload, _ sdk.AccAddress) channeltypesv2.RecvPacketResult {
-				w.noteV2(ctx, "recv", srcID, dstID, seq, pl, nil)
-				switch absV2Data(pl) {
+				idx := w.noteV2(ctx, "recv", srcID, dstID, seq, pl, nil)
+				w.appWrite(ctx, fmt.Sprintf("v2/%d", seq), idx, absV2Data(pl))
+				switch outcomeOf(absV2Data(pl)) {
 				case "ok":
 					return mockv2.MockRecvPacketResult
 				case "async":
@@ -526,9 +636,9 @@ func (w *World) installApps() {
 
 // noteV2 accumulates per-payload callbacks of one packet into a single pending event whose
 // data / ack lists grow in callback order.
-func (w *World) noteV2(ctx sdk.Context, ev, srcID, dstID string, seq uint64, pl channeltypesv2.Payload, ack []byte) {
+func (w *World) noteV2(ctx sdk.Context, ev, srcID, dstID string, seq uint64, pl channeltypesv2.Payload, ack []byte) int {
 	if ctx.ExecMode() != sdk.ExecModeFinalize {
-		return
+		return 1
 	}
 	me := w.chainOf(ctx)
 	src := me
@@ -556,13 +666,14 @@ func (w *World) noteV2(ctx sdk.Context, ev, srcID, dstID string, seq uint64, pl 
 		if ack != nil {
 			pend[n-1].A = append(pend[n-1].A, a)
 		}
-		return
+		return len(pend[n-1].P.Data)
 	}
 	e := LogEv{Ev: ev, P: Pkt{Proto: "v2", Src: src, Seq: int64(seq), ToH: 0, ToT: -1, Data: []string{absV2Data(pl)}, Route: route}, A: []string{}}
 	if ack != nil {
 		e.A = []string{a}
 	}
 	w.pending[me] = append(pend, e)
+	return 1
 }
 
 // flush moves the callbacks of the transaction just executed on c into the log (committed = true)
